@@ -1,13 +1,17 @@
 """C09 — Tiling images on a common TAN grid equals tiling the assembled mosaic."""
 PROPERTY = "C09"
 LEVEL = "other"
-CONTRACT_MODULES = ["contracts.specfuns", "contracts.lemmas_desc", "contracts.pyramid", "contracts.parallel", "contracts.walk", "contracts.reducer", "contracts.lemmas_embed", "contracts.generator", "contracts.image", "contracts.merge", "contracts.pyramidio", "contracts.study", "contracts.multitan", "contracts.multiwcs", "contracts.toastsample", "contracts.toastgeom", "contracts.toastgen"]
+CONTRACT_MODULES = ["contracts.specfuns", "contracts.lemmas_desc", "contracts.pyramid", "contracts.parallel", "contracts.walk", "contracts.reducer", "contracts.lemmas_embed", "contracts.generator", "contracts.image", "contracts.merge", "contracts.pyramidio", "contracts.study", "contracts.multitan", "contracts.multiwcs", "contracts.toastsample", "contracts.toastgeom", "contracts.toastgen", "contracts.parity"]
 FUNCTIONS = [
     "toasty.multi_tan.MultiTanProcessor._tile_serial",
     "toasty.multi_tan._mp_tile_worker",
     "toasty.multi_tan.MultiTanProcessor._tile_parallel",
     "toasty.pyramid.PyramidIO.update_image",
     "toasty.image.Image.update_into_maskable_buffer",
+    "toasty.image.ImageDescription.flip_parity",
+    "toasty.image.ImageDescription.ensure_negative_parity",
+    "toasty.image._flip_wcs_parity",
+    "toasty.image._wcs_to_parity_sign",
 ]
 LEMMAS = []
 SLOW = ()
